@@ -31,7 +31,7 @@ func (ks keySchema) GetKey(attrs map[string]string, item map[string]*types.Item)
 func (ks keySchema) getKeyValue(attrs map[string]string, item map[string]*types.Item) (string, error) {
 	key := []string{}
 
-	val, err := getItemValue(item, ks.HashKey, attrs[ks.HashKey])
+	val, err := ks.getKeyAttributeValue(attrs, item, ks.HashKey)
 	if err != nil {
 		return "", err
 	}
@@ -44,7 +44,7 @@ func (ks keySchema) getKeyValue(attrs map[string]string, item map[string]*types.
 
 	key = append(key, hashKeyEscaper.Replace(hashKeyStr))
 
-	val, err = getItemValue(item, ks.RangeKey, attrs[ks.RangeKey])
+	val, err = ks.getKeyAttributeValue(attrs, item, ks.RangeKey)
 	if err != nil {
 		return "", err
 	}
@@ -52,6 +52,32 @@ func (ks keySchema) getKeyValue(attrs map[string]string, item map[string]*types.
 	key = append(key, fmt.Sprintf("%v", val))
 
 	return strings.Join(key, "."), nil
+}
+
+// getKeyAttributeValue returns the value of a key attribute; as in DynamoDB, a primary key
+// attribute cannot be an empty string, number or binary value
+func (ks keySchema) getKeyAttributeValue(attrs map[string]string, item map[string]*types.Item, field string) (interface{}, error) {
+	val, err := getItemValue(item, field, attrs[field])
+	if err != nil {
+		return nil, err
+	}
+
+	if !ks.Secondary && isEmptyKeyValue(val) {
+		return nil, fmt.Errorf("%w; field %q: a key attribute cannot contain an empty value", ErrInvalidAtrributeValue, field)
+	}
+
+	return val, nil
+}
+
+func isEmptyKeyValue(v interface{}) bool {
+	switch x := v.(type) {
+	case string:
+		return x == ""
+	case []byte:
+		return len(x) == 0
+	}
+
+	return false
 }
 
 func (ks *keySchema) describe() []types.KeySchemaElement {
